@@ -1199,6 +1199,9 @@ func (p *Printer) command(cmd Command, redirs []*Redirect) (startRedirs int) {
 		// Forbid "foo()\n{ bar; }"
 		p.wantNewline = p.wantNewline || p.funcNextLine
 		p.nestedStmts(cmd.Stmts, cmd.Last, cmd.Rbrace)
+		if p.minify && len(cmd.Stmts) == 0 {
+			p.space() // `{}` is a word
+		}
 		p.semiRsrv("}", cmd.Rbrace)
 	case *IfClause:
 		p.ifClause(cmd, false)
